@@ -125,6 +125,7 @@ ImplTokens(cfg, s) == Tokens(cfg, s, LAMBDA x, d : ImplSplit(cfg, x, d), LAMBDA 
 \* rawSegToNode (edi/reader.go:99-135): every declared element collects all pieces with its (index, component
 \* index) -- repetitions give several --; none found: the default if declared, else the segment is fatal.
 \* decls: sequence of [idx, comp, dflt (BOOLEAN)]; result: <<"ok", values per decl>> or <<"missing", k>>
+\* ("missing" is terminal: the Read that meets it returns a fatal error, C01's latch applies from there)
 ElemLookup(pieces, decls) ==
   LET RECURSIVE Go(_)
       Go(k) ==
